@@ -68,6 +68,22 @@ def execute(plan):
     return _stream(plan, wl)
 
 
+def _wants_more_than_the_encoding(ex, e):
+    """decode(e) of a complete, well-framed (independent scanner) encoding answering "insufficient
+    data" means the decoder tried to read past the end of that encoding: over-consumption, which is
+    what this property is about even when nothing follows e.  (Other rejections of valid encodings
+    are round-trip defects of unclaimed C01/C09 and stay preconditions.)"""
+    from pyasn1 import error
+    if isinstance(ex, error.SubstrateUnderrunError) and tlv.well_framed(e):
+        return W.Violation('complete-encoding-reported-as-insufficient-data', tail_kind='none',
+                           exc_cls=type(ex).__name__, site=W.exc_site(ex), encoding_hex=e.hex()[:300])
+    return None
+
+
+def bad_result(v, wl, e):
+    return common.violation_result(v, _sig(v), [['decode', 'none', len(e)]], {}, None, None, {'kind': 'bytes'}, wl)
+
+
 def _sig(v):
     return [v.invariant, v.detail.get('tail_kind'), v.detail.get('exc_cls'), v.detail.get('site')]
 
@@ -80,6 +96,9 @@ def _oneshot(plan, wl):
     try:
         ref_v, ref_rest = dec.decode(e, asn1Spec=wl.spec, **wl.dec_kw)
     except Exception as ex:
+        bad = _wants_more_than_the_encoding(ex, e)
+        if bad:
+            return bad_result(bad, wl, e)
         return common.skip_result('reference:%s' % type(ex).__name__)
     if not isinstance(ref_v, U.p.base.Asn1Item):
         return common.skip_result('reference-non-object')
@@ -140,6 +159,9 @@ def _stream(plan, wl):
         try:
             v, rest = wl.dec_mod.decode(e, asn1Spec=wl.spec, **wl.dec_kw)
         except Exception as ex:
+            bad = _wants_more_than_the_encoding(ex, e)
+            if bad:
+                return bad_result(bad, wl, e)
             return common.skip_result('reference:%s' % type(ex).__name__)
         if not isinstance(v, U.p.base.Asn1Item):
             return common.skip_result('reference-non-object')
